@@ -33,7 +33,7 @@ Definition check (c : case) : option N :=
     let h8 := match h with [] => None | _ => Some h end in
     if outcome_code (select draw h8 voted unclaimed normal cands) =? out then None else Some id
   | CSort id input out =>
-    if list_eqb (map snd (sort_producers input)) out then None else Some id
+    if list_eqb (map snd (sorted_voted input)) out then None else Some id
   | CV2 id keys count draws out =>
     if list_eqb (random_v2 draws keys count) out then None else Some id
   end.
